@@ -93,7 +93,7 @@ def main():
                 broken.append({"kind": "axioms", "detail": "%s depends on %s" % (th["theorem"], extra)})
     ctx.proof_ok = not broken
     if meta.get("driver", True):
-        exe, err = C.build_driver(pid)
+        exe, err = C.build_driver(meta.get("driver_id", pid))
         if exe is None:
             broken.append({"kind": "extraction", "detail": err[-1500:]})
         ctx.driver = exe
@@ -159,7 +159,7 @@ def main():
     wall = time.time() - t0
     tb = ["Coq 8.16.1 kernel (coqc, full .vo build; no native_compute; vm_compute only in Examples)",
           "extraction: ExtrOcamlBasic only (bool/option/list/prod/unit/sumbool to OCaml natives); Z, positive, nat stay extracted inductives; no Extract Constant / Extract Inductive of our own",
-          "OCaml driver coq/Extract/drv_%s.ml (parsing/printing)" % pid,
+          "OCaml driver coq/Extract/drv_%s.ml (parsing/printing)" % meta.get("driver_id", pid),
           "Python harness: generators, canonicalisation, oracles (harness/props/%s.py)" % pid.lower()]
     tb += ["Print Assumptions %s: %s" % (t["theorem"], t["assumptions"].replace("\n", " ")) for t in rep["theorems"]]
     tb += meta.get("trusted", [])
